@@ -188,9 +188,22 @@ func c09Specs(tier string) []*Spec {
 		s.OnState = twinOracle(s)
 		specs = append(specs, s)
 	}
+	// narrow regimes found by seeded changes: versions obtained, rolled back and written again (rewrite) and
+	// idempotent re-commits of an existing version (resave)
+	addNarrow := func(name string, cfg Cfg, keys [][]byte, a Alpha, depth int) {
+		pr := probesFor(keys)
+		s := &Spec{Weight: 8, ID: "C09", Name: name, Cfg: cfg, Keys: keys, Vals: bs("x", "y"), MaxDepth: depth, MaxMaint: 1,
+			Alphabet: a.Ops, Oracles: []Oracle{oracleReads(pr), oracleHashes(), oracleVersions(keys[0]), oracleFast(pr), oracleReach(), oracleFresh(oracleReads(pr), oracleHashes())}}
+		s.OnState = twinOracle(s)
+		specs = append(specs, s)
+	}
+	rewrite := Alpha{Writes: true, NoRemove: true, Save: true, LVFO: true, Hold: true, MaxVersions: 2}
+	resave := Alpha{Writes: true, Save: true, LoadVersion: true, MaxVersions: 3}
 	k2 := bs("a", "b")
 	k3 := bs("a", "ab", "b")
 	if tier == "quick" {
+		addNarrow("rewrite/2keys/d7", defaultCfg, k2, rewrite, 7)
+		addNarrow("resave/1key/d8", defaultCfg, bs("a"), resave, 8)
 		add("default/2keys/d6", defaultCfg, k2, 6, 3, 30)
 		add("default/3keys/d5", defaultCfg, k3, 5, 2, 10)
 		add("nofast/2keys/d5", Cfg{Fast: false}, k2, 5, 3, 5)
@@ -202,6 +215,8 @@ func c09Specs(tier string) []*Spec {
 		add("cache2/1key/d8", Cfg{Fast: false, Cache: 2}, bs("a"), 8, 2, 20)
 		return specs
 	}
+	addNarrow("rewrite/2keys/d9", defaultCfg, k2, rewrite, 9)
+	addNarrow("resave/1key/d10", defaultCfg, bs("a"), resave, 10)
 	add("default/2keys/d8", defaultCfg, k2, 8, 3, 30)
 	add("default/3keys/d7", defaultCfg, k3, 7, 2, 20)
 	add("nofast/2keys/d7", Cfg{Fast: false}, k2, 7, 3, 10)
